@@ -47,9 +47,14 @@ try:
     rc, out = sh(["git", "apply", patch], cwd=wt)
     if rc != 0:
         print("patch does not apply:", out); sys.exit(3)
-    rc, out = sh(["cargo", "test", "--lib", "--offline"] + feat, cwd=wt)
-    unit = results(out)
-    unit_ok = rc == 0 and " 0 failed" in unit
+    # the unmodified suite has two rarely failing, unseeded tests (svm::svc::tests::svc_fit_predict ~1.5 %,
+    # model_selection::tests::test_cross_val_predict_knn): a 160/161 run is retried (up to 3 runs)
+    for attempt in range(3):
+        rc, out = sh(["cargo", "test", "--lib", "--offline"] + feat, cwd=wt)
+        unit = results(out)
+        unit_ok = rc == 0 and " 0 failed" in unit
+        if unit_ok:
+            break
     shutil.copy(demo, os.path.join(wt, "tests", "seed_demo.rs")) if os.path.isdir(os.path.join(wt, "tests")) else (os.makedirs(os.path.join(wt, "tests")), shutil.copy(demo, os.path.join(wt, "tests", "seed_demo.rs")))
     rc1, out1 = sh(["cargo", "test", "--offline", "--test", "seed_demo"] + feat, cwd=wt)
     with_change = results(out1) or out1[-300:]
